@@ -31,7 +31,7 @@ def corpus(ctx):
         gs += staged_corpus(rng, 150)
     else:
         gs += list(gen_graph.exhaustive_family(4, max_inc=2))
-        gs += list(gen_graph.exhaustive_family(5, max_inc=1))
+        gs += list(gen_graph.exhaustive_family(5, max_inc=2))      # 328 k descriptions: every one up to 5 nodes
         rng = ctx.rng('graph')
         gs += [gen_graph.random_graph(rng, nmin=6, nmax=13, max_space=400) for _ in range(6000)]
         gs += staged_corpus(rng, 1500)
